@@ -97,7 +97,7 @@ def valid_name(name):
         isinstance(name, str)
         and len(name) > 0
         and len(name) < 81
-        and not re.search(r"^.*[ <>{}[\]?*\"#%\\^|~`$&,;:/].*$", name)
+        and not re.search(r"[ <>{}[\]?*\"#%\\^|~`$&,;:/]", name)
     )
 
 def valid_role_arn(arn):
